@@ -1,9 +1,12 @@
 #!/bin/bash
-# tools/run_seed.sh <seed dir name> <property> [tier] : apply a stored seed to /repo, run the check, undo it straight afterwards
+# tools/run_seed.sh <seed dir name> <property> [tier] : apply a stored seed to /repo, run the check, undo it straight afterwards.
+# patch.diff is relative to the pinned snapshot; when a later fix: commit touches the same lines, patch.rebased.diff
+# (the same change re-expressed on the fixed tree) is used instead.
 D=/verif/seeded/$1; P=$2; T=${3:-quick}
 cd /repo && git status --short | grep -q . && { echo "/repo not clean"; exit 2; }
-git apply --3way $D/patch.diff 2>/tmp/apply.err || git apply $D/patch.diff || { echo "patch does not apply to /repo HEAD"; cat /tmp/apply.err; git checkout -q -- .; exit 2; }
-git reset -q 2>/dev/null
+if git apply --check $D/patch.diff 2>/dev/null; then git apply $D/patch.diff; USED=patch.diff
+elif [ -f $D/patch.rebased.diff ] && git apply --check $D/patch.rebased.diff 2>/dev/null; then git apply $D/patch.rebased.diff; USED=patch.rebased.diff
+else echo "seed $1: no patch applies to /repo HEAD"; exit 2; fi
 cd /verif && ./check $P --tier $T > /tmp/seedrun_$1_$P.log 2>&1; RC=$?
 git -C /repo checkout -q -- . ; git -C /repo status --short
-echo "seed $1 vs $P ($T): exit $RC"; grep -E 'VIOLATION|KNOWN|status=' /tmp/seedrun_$1_$P.log | head -5
+echo "seed $1 ($USED) vs $P ($T): exit $RC"; grep -E 'VIOLATION|KNOWN|status=' /tmp/seedrun_$1_$P.log | head -4
